@@ -187,7 +187,7 @@ def step (s : St) (args : List String) (impl : String) : St × Out :=
       let verdict :=
         if impl.startsWith s!"d={(Spec.ConnMgr.policy i).code} " then expect "decision-side-effects" impl (line (Spec.ConnMgr.policy i))
         else s!"bad decision-differs-from-policy want={(Spec.ConnMgr.policy i).code}"
-      (s', { model := line o.decision, verdict := verdict, tag := "decide:" ++ decisionTag i o })
+      (s', { model := line o.decision, verdict := verdict, tag := if i.found then "decide:" ++ decisionTag i o else "triv:decide-not-found" })
     | none => (s, badOp)
   | ["tick", li] =>
     match natArg li with
